@@ -34,7 +34,9 @@ MODEL_PROP = {"C09": [], "C10": [], "C11": ["C11_Terminates"], "C12": []}
 def shape_scripts(specdir, tier, seed, fn="LWW"):
     """Histories of IpfsLog.tla (TLC -simulate) whose final stores are the shapes to load."""
     q = tier == "quick"
-    consts = fam_l.base_consts(NR=3, Writer0=[1, 2, 3], Fn=fn, MaxE=6 if q else 7, MaxOps=12 if q else 14, PCs={1, 2, 4})
+    # publications happen in the middle of the histories too (a manifest may have been written before later merges)
+    consts = fam_l.base_consts(NR=3, Writer0=[1, 2, 3], Fn=fn, MaxE=6 if q else 7, MaxOps=12 if q else 14, PCs={1, 2, 4},
+                               PubOn={1, 2, 3})
     res = fam_l.explore(specdir, "shapes", consts, [], [], simulate=(12 if q else 50, 12 if q else 14), seed=seed)
     if res.crashed:
         raise Inconclusive("TLC failed generating shapes:\n" + res.out[-2000:])
@@ -45,6 +47,8 @@ def shape_scripts(specdir, tier, seed, fn="LWW"):
     # two hand-picked classics: a linear chain with skip references and a wide fork
     keep.append(json.dumps([["A", 1, 4]] * 6))
     keep.append(json.dumps([["A", 1, 1], ["A", 2, 1], ["A", 3, 1], ["J", 1, 2], ["J", 1, 3], ["A", 1, 2], ["A", 2, 1], ["J", 1, 2]]))
+    # published, then merged with a replica that is not ahead in Lamport time, then published again (by the shape builder)
+    keep.append(json.dumps([["A", 1, 1], ["A", 1, 1], ["A", 1, 1], ["A", 2, 1], ["P", 1], ["J", 1, 2]]))
     return consts, keep
 
 
@@ -106,7 +110,7 @@ def make_instances(prop, tier, seed, shapes, fn):
             for kind in ("mh", "json", "entry", "entryhash"):
                 ns = range(0, size + 2)
                 for n in ns:
-                    for conc in ((2,) if q else (1, 2, 3)):
+                    for conc in ((2, 3) if q else (1, 2, 3, 4)):
                         if kind == "json" and conc != 2:
                             continue
                         add(shape, rep, kind, n, conc)
@@ -218,12 +222,16 @@ def run_family_f(prop, tier, seed, report, scratch):
 
     # (b) jobs: per instance the default policy plus sampled TLC schedules
     rnd = random.Random(seed)
-    per = 8 if q else 30
+    per = (12 if prop == "C10" else 8) if q else 30
     jobs = []
     for i in insts:
         jobs.append({"inst": i["name"], "sched": []})
         if i["RealTimeout"]:
             continue
+        # three more deterministic policies: largest id first, fetches before processing, both
+        jobs.append({"inst": i["name"], "sched": [["DESC"]]})
+        jobs.append({"inst": i["name"], "sched": [["GATESFIRST"]]})
+        jobs.append({"inst": i["name"], "sched": [["GATESFIRST"], ["DESC"]]})
         ss = scheds.get(i["name"], [])
         for s in (rnd.sample(ss, per) if len(ss) > per else ss):
             jobs.append({"inst": i["name"], "sched": s})
@@ -293,7 +301,7 @@ def run_family_f(prop, tier, seed, report, scratch):
                                                                                    ("eq_size" if i["N"] == size else "gt_size"))),
                          "faults": sorted(set(i["faults"].values()))})
         report.add_violation(desc, {"family": "S", "record": rec,
-                                    "instance": {k: v for k, v in (i or {}).items() if k not in ("D",)},
+                                    "instance": dict(i or {}),
                                     "shape_script": json.loads(scripts[i["shape"] - 1]) if i else None, "cfg": hcfg})
     rs = random.Random(seed)
     samples = []
@@ -315,3 +323,37 @@ def run_family_f(prop, tier, seed, report, scratch):
         "the fake store models missing / failing / undecodable / never-answering blocks; the deadline is fired by "
         "cancelling the parent context at a scheduler-chosen point",
     ]
+
+
+def replay_payload(prop, payload, scratch, report):
+    """Re-runs the instance of a replay file under its recorded schedule on the current tree and validates it again."""
+    binpath = build_harness(scratch)
+    specdir = stage_spec(scratch)
+    inst = dict(payload["instance"])
+    inst["shape"] = 1
+    rec = payload.get("record") or {}
+    cfgp = os.path.join(scratch, "r.cfg.json")
+    scp = os.path.join(scratch, "r.shapes.ndjson")
+    json.dump(payload["cfg"], open(cfgp, "w"))
+    open(scp, "w").write(json.dumps(payload["shape_script"]) + "\n")
+    instp = os.path.join(scratch, "r.instances.json")
+    json.dump([{k: v for k, v in inst.items() if k not in ("D", "Orig", "Fault")}], open(instp, "w"))
+    jp = os.path.join(scratch, "r.jobs")
+    open(jp, "w").write(json.dumps({"inst": inst["name"], "sched": rec.get("sched") or []}) + "\n")
+    op = os.path.join(scratch, "r.out")
+    pr = run([binpath, "frun", "-cfg", cfgp, "-scripts", scp, "-instances", instp, "-jobs", jp, "-out", op], timeout=600)
+    if pr.returncode != 0:
+        raise Inconclusive("frun failed:\n" + pr.stdout[-2000:])
+    trace = os.path.join(scratch, "r.trace.ndjson")
+    with open(trace, "w") as out:
+        out.write(json.dumps({"k": "hdr", "instances": {inst["name"]: {k: v for k, v in inst.items()
+                                                                    if k not in ("faults", "tag", "shape", "replica")}}}) + "\n")
+        out.write(open(op).read())
+    n, viols, bad = validate_traces(specdir, "Trace_Fetcher", trace, ["H_WellFormed"] + P_OPS[prop], [], scratch, nshards=1)
+    if bad:
+        raise Inconclusive(bad)
+    for opn, r in viols:
+        if opn.startswith("H_") or opn.startswith("M_"):
+            continue
+        report.add_violation({"operator": opn, "loader": inst["Kind"]}, dict(payload, record=r))
+    report.coverage.update({"states": 2 * n, "transitions": n, "traces_validated_against_impl": 1, "samples": [{"instance": inst["name"]}]})
